@@ -1,6 +1,7 @@
 import CSSVerif.ProofTree
 import CSSVerif.IterPrune
 import CSSVerif.Scc
+import CSSVerif.DfsBound
 /-! Driver for C05.
 `db n root iter ev;ev;..` with `ev = start|e,e|k` (k=2 two-way unary, 1 one-way unary, 0 otherwise):
    prints `has=<0/1> surv=[least members of the surviving classes]` computed by the proven references
@@ -80,5 +81,15 @@ partial def loop (h : IO.FS.Stream) (R : List RuleK) : IO Unit := do
       match root.toNat? with
       | some root => IO.println s!"sizes {allSizes R root}"; loop h R
       | none => IO.println "bad-op"; loop h R
+    | ["bsizes", root, m] =>
+      -- the bounded generator's model (proven equal to the unbounded one filtered by size: dfsB_eq_filter)
+      match root.toNat?, m.toNat? with
+      | some root, some m =>
+        IO.println s!"bsizes {if (keys R).contains root then (dfsTreeB R 64 root [] (m : Int)).map (·.2) else []}"; loop h R
+      | _, _ => IO.println "bad-op"; loop h R
+    | ["bsearch", root, hi] =>
+      match root.toNat?, hi.toNat? with
+      | some root, some hi => IO.println s!"bsearch {bsearch (findB R 64 root) hi 1 hi}"; loop h R
+      | _, _ => IO.println "bad-op"; loop h R
     | _ => IO.println "bad-op"; loop h R
 def main : IO Unit := do loop (← IO.getStdin) []
